@@ -77,3 +77,33 @@ for sid, d in SEEDS.items():
                 caught_by=[r['check'] for r in runs if r['caught']])
     json.dump(meta, open(os.path.join(p, 'meta.json'), 'w'), indent=1)
     print(sid, meta['caught_by'])
+
+# ---- wave 3 (second seeds; run one by one with tools/run_seed.sh, results recorded here)
+SEEDS_B = {
+ 'C01b': dict(prop='C01', file='src/compiler/inline.rs', fn='pick_value_from_arg_element', needs='a defun-inline whose parameter list has an (@ name sub) capture nested inside a destructured parameter, and a body that uses a name bound inside sub',
+              caught='C01 compile_run (template inline_nested_capture, added in response: the family had no nested capture in an inline)'),
+ 'C02b': dict(prop='C02', file='src/compiler/optimize/mod.rs', fn='constant_fun_result', needs='cl23+; a call of a non-inline defun with constant positional arguments and an &rest tail that is a plain variable',
+              caught='C02 builds_agree (template rest_const_args, added in response)'),
+ 'C03b': dict(prop='C03', file='src/classic/clvm_tools/stages/stage_2/inline.rs', fn='formulate_path_selections_for_destructuring_arg', needs='classic defun-inline destructuring a parameter with three or more elements and using the third',
+              caught='C03 classic_builds (template inline_destructure3, added in response)'),
+ 'C05b': dict(prop='C05', file='src/classic/clvm_tools/stages/stage_2/module.rs', fn='compile_mod_stage_1', needs='classic defconst that depends on another defconst only through a function it calls, and a HashMap iteration order that visits it first',
+              caught='C05 output_independent (template defconst_through_function under the reversed / rotated iteration policy, added in response; confirmed natively by 40 rebuilds)'),
+ 'C13b': dict(prop='C13', file='src/compiler/codegen.rs', fn='do_mod_codegen', needs='a nested (mod ...) in the main expression of a program with a non-inline defun',
+              caught='C13 symbols_describe (template nested_mod, added in response)'),
+ 'C17b': dict(prop='C17', file='src/compiler/usecheck.rs', fn='check_parameters_used_compileform', needs='a program on which the partial evaluator exceeds its stack budget (constant-bounded recursion of 20+ levels)',
+              caught='C17 unused_really_unused (template evaluator_gives_up, added in response)'),
+}
+for sid, d in SEEDS_B.items():
+    p = os.path.join(ROOT, 'seeded', sid)
+    if not os.path.isdir(p):
+        continue
+    meta = dict(seed=sid, breaks_property=d['prop'], file=d['file'], function=d['fn'], needs_to_manifest=d['needs'],
+                demonstration='demo.rs (installed as tests/verif_demo.rs in a scratch worktree)',
+                confirmed=dict(how='tools/confirm_seed2.sh in a scratch worktree /tmp/wt2_%s (removed afterwards)' % d['prop'],
+                               suite_with_change='614 passed, 1 skipped (pinned nextest command)', demo_with_change='FAILED', demo_without_change='ok'),
+                ran=[dict(command='git -C /repo apply /verif/seeded/%s/patch.diff && /verif/check %s --tier quick; git -C /repo checkout -- .' % (sid, d['prop']),
+                          check=d['prop'], tier='quick', caught=True, exit=1)],
+                caught_by=[d['prop']], note=d['caught'],
+                first_result='missed by the template family as it stood when the change arrived; caught after the named template was added')
+    json.dump(meta, open(os.path.join(p, 'meta.json'), 'w'), indent=1)
+    print(sid, 'meta written')
